@@ -157,6 +157,15 @@ func init() {
 		{Kind: "calls", File: ldr7, Func: "Loader.renderErrorsStatusFallback", Name: "renderErrorsStatusFallback", Match: lm},
 		{Kind: "calls", File: "v2/pkg/engine/resolve/tainted_objects.go", Func: "taintedObjects.isTainted", Name: "isTainted", Match: []string{"if", "return", "for", "t.*", "found"}},
 	}
+	// C09: the plan cache key and the option wiring
+	ee := "execution/engine/execution_engine.go"
+	em := []string{"if", "return", "for", "e.*", "astprinter.*", "operation.*", "xxhash.*", "pool.*", "hash.*", "h.*", "postprocess.*", "plan.*", "planner.*", "report.*", "lru.*", "append"}
+	specs["C09"] = []item{
+		{Kind: "calls", File: ee, Func: "ExecutionEngine.getCachedPlan", Name: "getCachedPlan", Match: em},
+		{Kind: "calls", File: ee, Func: "NewExecutionEngine", Name: "newExecutionEngine", Match: []string{"if", "return", "for", "postprocess.*", "append", "lru.New", "resolve.New", "introspection_datasource.*"}},
+		{Kind: "calls", File: "v2/pkg/engine/postprocess/deduplicate_single_fetches.go", Func: "replaceDependsOnFetchID", Name: "replaceDependsOnFetchID", Match: []string{"if", "return", "for", "replaceDependsOnFetchID", "slices.*", "append"}},
+		{Kind: "calls", File: "v2/pkg/engine/resolve/loader_multi_entity.go", Func: "Loader.mergeEntryResults", Name: "mergeEntryResults", Match: []string{"if", "return", "for", "l.*", "goerrors.Join"}},
+	}
 	// C15: the literal → JSON converter and the block string value
 	av := "v2/pkg/ast/ast_value.go"
 	asv := "v2/pkg/ast/ast_val_string_value.go"
